@@ -58,11 +58,32 @@ func (f *Flat) successReturns(fi *FuncInfo) []int {
 func (f *Flat) CheckChain(r *Report, rule string, fi *FuncInfo, steps []step) bool {
 	p := f.P
 	all := true
+	missing := func(g *Flat) int {
+		n := 0
+		for _, s := range steps {
+			if len(g.CallSites(s.Keys...)) == 0 {
+				n++
+			}
+		}
+		return n
+	}
+	// a step may have moved into a helper (a stage method): use the graph with same-package helpers spliced in
+	// when that finds steps the plain graph does not show
+	if m := missing(f); m > 0 {
+		if g := p.FlatInl(fi); g != nil && missing(g) < m {
+			f = g
+		}
+	}
 	sites := make([][]callSite, len(steps))
 	for i, s := range steps {
 		sites[i] = f.CallSites(s.Keys...)
 		if len(sites[i]) == 0 {
-			r.Viol(rule, fi.Key+"#"+s.Name, p.pos(fi.Decl), "the function no longer performs step '"+s.Name+"'")
+			// a witness of absence: not even a helper or a function literal of the function calls it
+			if p.funcCallsDeep(fi, p.keysPred(s.Keys...)) {
+				r.Undecided(rule, fi.Key+"#"+s.Name, p.pos(fi.Decl), "step '"+s.Name+"' happens inside a function literal or a helper the rule cannot order against the other steps")
+			} else {
+				r.Viol(rule, fi.Key+"#"+s.Name, p.pos(fi.Decl), "the function no longer performs step '"+s.Name+"'")
+			}
 			all = false
 		}
 	}
@@ -122,7 +143,7 @@ func (f *Flat) CheckChain(r *Report, rule string, fi *FuncInfo, steps []step) bo
 		ordered := true
 		var witness int
 		for _, t := range next {
-			if !f.MustPrecede(cur, t) {
+			if !f.MustPrecedeNil(cur, t) {
 				ordered = false
 				witness = t
 			}
